@@ -693,6 +693,8 @@ def eval_case(case):
     except Exception:
         rows = -1
     out["info"]["rows_written"] = rows
+    # placement family and the number of simplex rows GJK actually wrote are part of the name (known findings are pinned to them)
+    contract = "epa.epa[%s,%s;fam=%s;rows=%d]" % (A["kind"], B["kind"], case.get("family"), rows)
 
     orc = None
     first = None
